@@ -92,6 +92,11 @@ example :
        decide (τ = ⟨⟨{}, .scalar .float32⟩, .lvalue⟩)
      | _ => false) = true := by decide
 
+/-- **Every referenced definition exists**: all variable and function ids of an accepted expression are allocated
+    in the environment (a consequence of the typing judgment, whose rules look the ids up) -/
+theorem ids_in_range {Γ : Env} {e : SExpr} {e' : IExpr} {τ : ETy} (h : elabE true Γ e = .ok (e', τ)) :
+    IdsInRange Γ e' := ids_of_hasType e' τ (elab_sound h)
+
 /-- what it means for a typed statement to be well typed -/
 def StmtTyped (Γ : Env) : IStmt → Prop
   | .expr e => ∃ τ, HasType Γ e τ
